@@ -173,6 +173,9 @@ class SymArray(np.ndarray):
     def __array_ufunc__(self, ufunc, method, *inputs, out=None, **kwargs):
         if out is not None:
             raise Unsupported("ufunc out=")
+        if ufunc is np.maximum and any(isinstance(x, DetachedSymArray) for x in inputs):
+            r = SymArray.__array_ufunc__(self.view(SymArray), ufunc, method, *[x.view(SymArray) if isinstance(x, DetachedSymArray) else x for x in inputs], **kwargs)
+            return _abstract_shift(r)
         if ufunc is np.matmul and method == "__call__":
             a, b = [as_obj(x) for x in inputs]
             return wrap(_matmul(a, b))
@@ -313,6 +316,35 @@ class SymArray(np.ndarray):
         return "SymArray(shape=%s)" % (self.shape,)
 
     __str__ = __repr__
+
+
+class DetachedSymArray(SymArray):
+    """result of funsor.ops.detach on a symbolic array: a value used for numerical stabilisation only.
+    The maximum of detached LOG-kind cells is abstracted to a fresh positive unknown (any positive shift must give
+    the same final value; if the code relied on the shift being the true maximum the proof fails -> the model does
+    not replay -> inconclusive, never a false alarm)."""
+
+    def __array_finalize__(self, obj):
+        pass
+
+
+_SHIFT_COUNTER = [0]
+
+
+def _abstract_shift(r):
+    a = r.view(np.ndarray)
+    out = np.empty(a.shape, dtype=object)
+    for idx in np.ndindex(*a.shape):
+        c = SV.lift(a[idx])
+        if c.k == "real" and c.p is not None and not c.is_const():
+            _SHIFT_COUNTER[0] += 1
+            from .sv import shift_symbol
+            m = shift_symbol(engine.fresh_name("shift"))
+            engine.axiom("shift|%s" % m, m > 0)
+            out[idx] = SV("real", c.l, m)
+        else:
+            out[idx] = c
+    return out.view(DetachedSymArray)      # a maximum of detached values is still only a stabilising shift
 
 
 def _ax(axis):
@@ -659,6 +691,38 @@ class _FInfo:
 
 
 _INSTALLED = []
+_SPEC = []
+
+
+def use_logsumexp_spec():
+    """assume-guarantee cut for the algorithm harnesses (C08-C11, C14): funsor.ops.logsumexp on symbolic arrays is
+    replaced by its specification (fold of log-space addition).  The real kernel, including its -inf handling, is
+    decided separately under C01/C15."""
+    if _SPEC:
+        return
+    install()
+    import funsor.ops as ops
+    from .sv import sv_logaddexp
+
+    def spec(x, axis=None, keepdims=False):
+        a = as_obj(x)
+        nd = a.ndim
+        axes = _axes(axis, nd) if nd else ()
+        r = a
+        for ax in sorted(axes, reverse=True):
+            moved = np.moveaxis(r, ax, -1)
+            out = np.empty(moved.shape[:-1], dtype=object)
+            for idx in np.ndindex(*out.shape):
+                acc = SV.lift(moved[idx][0])
+                for c in moved[idx][1:]:
+                    acc = sv_logaddexp(acc, c)
+                out[idx] = acc
+            r = np.expand_dims(out, ax)
+        if not keepdims:
+            r = r.reshape(tuple(n for i, n in enumerate(r.shape) if i not in axes))
+        return r.view(SymArray)
+    ops.logsumexp.register(SymArray)(spec)
+    _SPEC.append(True)
 
 
 def install():
@@ -666,5 +730,7 @@ def install():
     if _INSTALLED:
         return
     import funsor.ops.array as A
+    import funsor.ops as ops
     A.np = NpProxy(np)
+    ops.detach.register(SymArray)(lambda x: x.view(DetachedSymArray))
     _INSTALLED.append(True)
